@@ -112,6 +112,10 @@ CASES += [
  ("C09sim", "knn/item.py", "        counts[i - start] = c\n", "        counts[i - start - 1] = c\n", "break"),
  ("C01ptr", "data/relationships.py", "        row_sizes[np.asarray(rsz_nums) + 1] = rsz_counts", "        row_sizes[np.asarray(rsz_nums)] = rsz_counts", "break"),
  ("C01ptr", "data/relationships.py", "        table = table.sort_by([(c, \"ascending\") for c in e_cols])\n", "", "break"),
+ ("C19lin", "stochastic/_ranker.py", "        keys /= np.maximum(weights, np.finfo(\"f4\").smallest_normal)", "        keys *= np.maximum(weights, np.finfo(\"f4\").smallest_normal)", "break"),
+ ("C19lin", "stochastic/_ranker.py", "        keys /= np.maximum(weights, np.finfo(\"f4\").smallest_normal)", "        keys /= weights", "break"),
+ ("C19lin", "stochastic/_ranker.py", "        picked = argtopn(keys, n)\n        return ItemList(valid_items[picked], ordered=True)", "        picked = argtopn(keys, n)\n        return ItemList(valid_items[picked], ordered=False)", "break"),
+ ("C19lin", "stochastic/_ranker.py", "        picked = argtopn(keys, n)\n        return ItemList(valid_items[picked], ordered=True)", "        best = argtopn(keys, n)\n        return ItemList(valid_items[best], ordered=True)", "keep"),
  ("C19lin", "stochastic/_ranker.py", "                if r > 0:\n                    scores /= r", "                if r > np.finfo(scores.dtype).eps:\n                    scores /= r", "break"),
  ("C19lin", "stochastic/_ranker.py", "                        weights = scores / tot", "                        weights = scores", "break"),
  ("C19lin", "stochastic/_ranker.py", "                scores -= lb\n", "                scores -= ub\n", "break"),
